@@ -51,6 +51,7 @@ func main() {
 	}
 	run(c, srv, batches)
 	srv.Kill()
+	growth(c)
 	checkRequired(c)
 	c.Finish()
 }
@@ -951,6 +952,17 @@ func replay(c *vf.Ctx) {
 	}
 	var doc struct {
 		Witness witness `json:"witness"`
+	}
+	var head struct {
+		Sig  string `json:"finding_signature"`
+		Seed uint64 `json:"seed"`
+	}
+	_ = json.Unmarshal(raw, &head)
+	if strings.HasPrefix(head.Sig, "growth:") || strings.HasPrefix(head.Sig, "server-died:growth") {
+		// the growth phase is a fixed function of the seed recorded in the witness file
+		fmt.Println("replaying the growth phase")
+		growth(c)
+		return
 	}
 	if err := json.Unmarshal(raw, &doc); err != nil || doc.Witness.Batch == nil {
 		c.Broken("replay: witness has no batch (%v)", err)
